@@ -100,6 +100,8 @@ fn verif_read_source_file(path: &Xstr) -> Xresult1<String> { unimplemented!() }
 //@use compile.fns ::core_word_def_begin
 //@use compile.fns ::core_word_late
 //@use compile.fns ::core_word_const
+//@use compile.fns ::core_word_immediate
+//@use compile.fns ::core_word_defined
 //@use compile.fns ::core_word_nested_begin
 //@use compile.fns ::core_word_nested_end
 //@use compile.fns ::core_word_def_end
@@ -119,6 +121,14 @@ spec fn dict_last(d: Seq<DictEntry>, t: Seq<char>, i: int) -> bool {
     0 <= i < d.len() && xstr_text(d[i].name) == t && forall|j: int| i < j < d.len() ==> xstr_text(d[j].name) != t
 }
 pub uninterp spec fn sub_str(t: Xsubstr) -> &'static str;
+spec fn name_bound(d: Seq<DictEntry>, t: Seq<char>) -> bool { exists|i: int| 0 <= i < d.len() && #[trigger] xstr_text(d[i].name) == t }
+impl vstd::std_specs::convert::FromSpecImpl<bool> for Cell {
+    open spec fn obeys_from_spec() -> bool { true }
+    open spec fn from_spec(x: bool) -> Cell { Cell::Flag(x) }
+}
+impl From<bool> for Cell {
+//@use cell.fns "impl From<bool> for Cell"::from
+}
 // `const`: the name t is bound to the constant v afterwards
 spec fn const_defined(d0: Seq<DictEntry>, d1: Seq<DictEntry>, t: Seq<char>, v: Cell) -> bool {
     // a new constant when the name is not bound ...
